@@ -709,31 +709,64 @@ def generic_variant(ctx, cls, clskey, psnap, ev, form, pool, case, spec):
         ctx.traces += 1
 
 
-def init_state(cls, clskey, labelled, rows, seed):
+CTOR_FORMS = ("pyint", "pyfloat", "i8", "i4", "f4", "f8")
+CTOR_VALUES = {   # form -> (location values, scale values); exactly representable in the form's type
+    "pyint": ([3, 3], [2, 2]), "pyfloat": ([0.5, 0.5], [2.0, 2.0]),
+    "i8": ([3, -2], [2, 4]), "i4": ([0, 5], [1, 3]), "f4": ([0.5, -2.0], [2.0, 0.25]), "f8": ([3.0, -2.0], [2.0, 4.0]),
+}
+
+
+def ctor_args(form, t):
+    loc, sc = CTOR_VALUES[form]
+    if form == "pyint":
+        return int(loc[0]), int(sc[0])
+    if form == "pyfloat":
+        return float(loc[0]), float(sc[0])
+    dt = DSM.FORM_DTYPE[form]
+    return numpy.array(loc[:t], dtype=dt), numpy.array(sc[:t], dtype=dt)
+
+
+def init_state(cls, clskey, labelled, rows, seed, ctor=None):
+    """Root of a history.  ctor None: `rows` are raw values, the object is built by from_numpy.  ctor = argument form:
+    `rows` is the STORED matrix and the object is built by the constructor with explicit location / scale given in
+    that form (python int / float scalars, int64 / int32 / float32 / float64 arrays); its raw values are
+    scale * mat + location, and every form has to behave like the float64 one."""
     n0, t = len(rows), len(rows[0])
     pre = ["x", "tx", "g"][seed % 3]
-    taxa0 = R.make([f"{pre}{i}" for i in range(n0)], [[2, 1, 2, 5][i % 4] for i in range(n0)], rows)
+    names, grps = [f"{pre}{i}" for i in range(n0)], [[2, 1, 2, 5][i % 4] for i in range(n0)]
     pool = Pool(cls, seed, t, labelled)
     base = dict(layer="H", cls=clskey, labelled=labelled, init=rows, seed=seed)
-    return taxa0, t, pool, base
+    if ctor is None:
+        taxa0 = R.make(names, grps, rows)
+        return taxa0, t, pool, base, build(cls, taxa0, t, labelled), cls.from_numpy.__qualname__
+    base["ctor"] = ctor
+    loc, sc = CTOR_VALUES[ctor]
+    raw = [[R.frac(sc[c]) * R.frac(rows[i][c]) + R.frac(loc[c]) for c in range(t)] for i in range(n0)]
+    mag = [abs(loc[c]) + max(abs(sc[c] * rows[i][c]) for i in range(n0)) for c in range(t)]
+    taxa0 = R.make(names, grps, raw, mag)
+    larg, sarg = ctor_args(ctor, t)
+    obj = cls(mat=numpy.array(rows, dtype="float64"), location=larg, scale=sarg, **label_kw(names, grps, t, labelled))
+    return taxa0, t, pool, base, obj, cls.__init__.__qualname__ + f"[{ctor}]"
 
 
-def run_H(ctx, clskey, labelled, rows_sym, depth, part, nparts):
+def run_H(ctx, clskey, labelled, rows_sym, depth, part, nparts, ctor=None):
     cls = cls_of(clskey)
     seed = ctx.seed
     rows = concrete(rows_sym, seed)
-    taxa0, t, pool, base = init_state(cls, clskey, labelled, rows, seed)
-    obj0 = build(cls, taxa0, t, labelled)
-    b0 = cls.from_numpy.__qualname__
+    taxa0, t, pool, base, obj0, b0 = init_state(cls, clskey, labelled, rows, seed, ctor)
+    std = ctor is None                       # only from_numpy promises a centred / scaled representation
+    if ctor is not None:
+        ctx.flag(f"ctor-form:{ctor}")
     if part == 0:
         ctx.evaluations += 1
         ctx.transitions += 1
         coverage_flags(ctx, taxa0, t)
-        root_ok = full_oracle(ctx, cls, obj0, taxa0, True, t, b0, dict(base, history=[]), True, True)
+        root_ok = full_oracle(ctx, cls, obj0, taxa0, True, t, b0, dict(base, history=[]), std, True)
     else:
         try:
             check_values(obj0, taxa0, t, b0)
-            check_standardised(ctx, obj0, taxa0, t, b0, True)
+            if std:
+                check_standardised(ctx, obj0, taxa0, t, b0, True)
             root_ok = True
         except Exception:  # noqa: BLE001  (recorded by part 0)
             root_ok = False
@@ -885,7 +918,15 @@ def shards(tier, seed):
     for clskey, labelled, rows in h_inits(tier):
         nparts = (12 if len(rows) >= 2 else 4) if T else (4 if len(rows) >= 2 else 1)
         for part in range(nparts):
-            out.append(("H", clskey, labelled, rows, depth, part, nparts))
+            out.append(("H", clskey, labelled, rows, depth, part, nparts, None))
+    # roots built by the constructor with explicit location / scale in every documented argument form
+    crow2, crow1 = [["a", "z"], ["b", "a"]], [["a"], ["z"], ["b"]]
+    for clskey, forms in (("BV", CTOR_FORMS), ("EBV", ("pyint", "f4")), ("GEBV", ("pyint", "i4"))):
+        for form in forms:
+            for rows in ((crow2, crow1) if (T or clskey == "BV") else (crow2,)):
+                nparts = 4 if T else 2
+                for part in range(nparts):
+                    out.append(("H", clskey, True, rows, depth, part, nparts, form))
     # S --------------------------------------------------------------
     out += DSM.shards(tier, seed)
     # long shards first (load balance on the fork pool); the order has no influence on what is explored
@@ -901,8 +942,8 @@ def run_shard(spec, ctx):
         _, clskey, n, t, prefix, stride, offset, alpha = spec
         run_L0(ctx, clskey, n, t, prefix, stride, offset, alpha)
     elif spec[0] == "H":
-        _, clskey, labelled, rows, depth, part, nparts = spec
-        run_H(ctx, clskey, labelled, rows, depth, part, nparts)
+        _, clskey, labelled, rows, depth, part, nparts, ctor = spec
+        run_H(ctx, clskey, labelled, rows, depth, part, nparts, ctor)
     else:
         DSM.run_shard(spec, ctx)
 
@@ -935,6 +976,8 @@ def finalize(ctx, tier, seed):
     assert c.get("independence-checks", 0) > 100
     for key in CLASSES:
         assert c.get(f"op:{key}:__copy__", 0) > 0, key
+    for form in CTOR_FORMS:
+        assert f"ctor-form:{form}" in f, form
     assert len(ctx.outcomes) > 500, len(ctx.outcomes)
     assert len(ctx.states) > 1000, len(ctx.states)
     DSM.finalize(ctx, tier, seed)
@@ -952,10 +995,8 @@ def replay(case, ctx):
 def replay_H(ctx, case):
     clskey, labelled, rows, seed = case["cls"], case["labelled"], case["init"], case["seed"]
     cls = cls_of(clskey)
-    taxa, t, pool, base = init_state(cls, clskey, labelled, rows, seed)
-    obj = build(cls, taxa, t, labelled)
-    built = cls.from_numpy.__qualname__
-    full_oracle(ctx, cls, obj, taxa, True, t, built, dict(base, history=[]), True, True)
+    taxa, t, pool, base, obj, built = init_state(cls, clskey, labelled, rows, seed, case.get("ctor"))
+    full_oracle(ctx, cls, obj, taxa, True, t, built, dict(base, history=[]), case.get("ctor") is None, True)
     ps, fresh = snap(obj), True
     hist = []
     for ev in case["history"]:
